@@ -166,6 +166,11 @@ def run_trace(job):
                 if fact["link"] != "up":
                     continue
                 n0 = ep.link.closed_count
+                if (tid + idx) % 2 == 0:
+                    # the peer ends the session the regular way: Separate.req, then it closes the connection
+                    inp = dict(inp, how="separate-then-close")
+                    ep.link.feed(link.hsms_frame(stype=9, system=ep.fresh_sys()))
+                    s.settle()
                 ep.link.peer_close()
                 ok, why = s.run_until(lambda: ep.link.closed_count > n0, max_dt=5)
                 if not ok:
